@@ -232,7 +232,7 @@ def install():
 
 def execute(program, prefix, opcode=False, rng=None):
     """Run one schedule of a thread program.  `program` = {"compress": bool, "threads": {tid: [op, ...]}} with ops
-    ["send_text", str] | ["send_binary", [bytes]] | ["send_ping", [..]] | ["close"] | ["close_empty"] | ["loop_close_echo_empty"] | ["loop_pong", [..]] | ["loop_autoping"] |
+    ["send_text", str] | ["send_binary", [bytes]] | ["send_ping", [..]] | ["close"] | ["close_empty"] | ["loop_close_echo_empty"] | ["loop_inflate", [..]] | ["loop_on_disconnect"] | ["loop_pong", [..]] | ["loop_autoping"] |
     ["loop_close_echo", code].  Returns (records, choices)."""
     global CUR
     m = install()
@@ -249,7 +249,7 @@ def execute(program, prefix, opcode=False, rng=None):
     sess._next_ping = 0.0
     sess._last_pong = 0.0
     if program.get('compress'):
-        ws.state.compression = m['compression'].Deflate.from_options({})
+        ws.state.compression = m['compression'].Deflate.from_options(dict(program.get('ext_options') or {}))
     calls = []
 
     def make(tid, ops):
@@ -280,6 +280,17 @@ def execute(program, prefix, opcode=False, rng=None):
                         pl = b''
                         for _ in ws._on_close(msg):
                             pass
+                    elif name == 'loop_on_disconnect':
+                        ws.on_disconnect()                  # what feed()'s GeneratorExit handler does when the consumer abandons the iterator
+                    elif name == 'loop_inflate':
+                        # the loop thread decodes a compressed message of the server (Message.build -> Deflate.decompress); the server
+                        # compresses every message afresh (server_no_context_takeover is part of the program's negotiated options)
+                        import zlib
+                        co = zlib.compressobj(zlib.Z_DEFAULT_COMPRESSION, zlib.DEFLATED, -15)
+                        wire = (co.compress(bytes(op[1])) + co.flush(zlib.Z_SYNC_FLUSH))[:-4]
+                        got = ws.state.compression.decompress([m['frame'].Frame(1, payload=wire, rsv1=1)])
+                        if bytes(got) != bytes(op[1]):
+                            raise W.MachineryError('loop_inflate: the client did not restore the server message')
                     elif name == 'loop_pong':
                         pl = bytes(op[1])
                         sess._send_pong(m['events'].Ping(pl))
